@@ -23,7 +23,7 @@ func (c11) ID() string { return "C11" }
 func (c11) Info() core.Info {
 	return core.Info{
 		Level: "exploration",
-		Rule: "seeded operation histories (set, update, delete, merge with +, rest, range slicing, literal with duplicate keys, rebuild in permuted order) over a per-run universe of 3..16 keys of mixed types " +
+		Rule: "seeded operation histories (set, update, delete, merge with +, rest, range slicing, literal with duplicate keys, rebuild in permuted order) over a per-run universe of 3..16 keys of mixed types (incl. int/float twins such as 1 and 1.0, which are one key whose first-stored representative must stay) " +
 			"(ints, floats, strings, booleans, nil, small arrays), applied in lock-step to (a) object.Map through the Go API, (b) a variable of a real grol session through source text, (c) an association-list model. " +
 			"After every operation: length, lookup of every universe key, iteration order (first/rest walk and Inspect), equality with a twin built by one canonical literal, and that operands of + are unchanged. " +
 			"The model's cross-type key rank is learned once per run from one canonical build (history independence), the order within numbers/strings/booleans is checked independently. " +
@@ -51,6 +51,8 @@ type mkey struct {
 var keyPool = []mkey{
 	{"-5", "num", -5, ""}, {"0", "num", 0, ""}, {"1", "num", 1, ""}, {"2", "num", 2, ""}, {"3", "num", 3, ""}, {"10", "num", 10, ""}, {"100", "num", 100, ""},
 	{"-1.5", "num", -1.5, ""}, {"0.5", "num", 0.5, ""}, {"2.5", "num", 2.5, ""}, {"1000.25", "num", 1000.25, ""},
+	// twins: floats numerically equal to an integer key above are the SAME key; the representative stored first stays
+	{"1.0", "num", 1, ""}, {"2.0", "num", 2, ""}, {"-5.0", "num", -5, ""}, {"100.0", "num", 100, ""},
 	{`""`, "str", 0, ""}, {`"a"`, "str", 0, "a"}, {`"ab"`, "str", 0, "ab"}, {`"b"`, "str", 0, "b"}, {`"k1"`, "str", 0, "k1"}, {`"Z"`, "str", 0, "Z"},
 	{"true", "bool", 1, ""}, {"false", "bool", 0, ""},
 	{"nil", "nil", 0, ""},
@@ -145,9 +147,14 @@ type c11model struct {
 	pairs []mpair // sorted by rank
 }
 
+// sameKey: equal indices, or numerically equal numbers of different types (1 and 1.0 are one key).
+func sameKey(a, b int) bool {
+	return a == b || (keyPool[a].class == "num" && keyPool[b].class == "num" && keyPool[a].num == keyPool[b].num)
+}
+
 func (m *c11model) find(k int) int {
 	for i, p := range m.pairs {
-		if p.k == k {
+		if sameKey(p.k, k) {
 			return i
 		}
 	}
@@ -249,7 +256,16 @@ func (c11) Execute(h *core.History) *core.Outcome {
 	mod := &c11model{rank: map[int]int{}}
 	{
 		canonMap := object.NewMapSize(len(uni))
-		for _, k := range uni {
+		classes := 0
+		for i, k := range uni {
+			dup := false
+			for _, k2 := range uni[:i] {
+				dup = dup || sameKey(k, k2)
+			}
+			if dup {
+				continue // a twin of a key already in the canonical build: same key, same rank
+			}
+			classes++
 			canonMap = canonMap.Set(keyObj(keyPool[k]), object.Integer{Value: int64(k)})
 		}
 		var cur object.Object = canonMap
@@ -261,10 +277,20 @@ func (c11) Execute(h *core.History) *core.Outcome {
 			pos++
 			cur = object.Rest(cur)
 		}
-		if pos != len(uni) {
-			fail(-1, "canonical-build", fmt.Sprintf("canonical build of %d distinct keys iterates %d pairs", len(uni), pos))
+		if pos != classes {
+			fail(-1, "canonical-build", fmt.Sprintf("canonical build of %d distinct keys iterates %d pairs", classes, pos))
 			st.Shape = "canon"
 			return o
+		}
+		for _, k := range uni {
+			if _, ok := mod.rank[k]; !ok {
+				for _, k2 := range uni {
+					if r, ok2 := mod.rank[k2]; ok2 && sameKey(k, k2) {
+						mod.rank[k] = r
+					}
+				}
+				st.Probe("universe_with_int_float_twin_keys")
+			}
 		}
 		// documented order inside numbers / strings / booleans, checked independently of the implementation
 		for _, a := range uni {
